@@ -209,9 +209,9 @@ def facts : Facts := {
   allocSitesSized := 6
   typedAllocOK := true
   typedAllocSites := 6
-  decoderSkeleton := "878b932a4f30f422bf1d8b29"
+  decoderSkeleton := "49a2ad728a2385482e2465b2"
   encoderSkeleton := "5cbdaefa998ed87261c39697"
-  resolverSkeleton := "e05eca0bac682ad349a639e9"
+  resolverSkeleton := "c7f04d2a6c11e568bc95e877"
   descTableSkeleton := "519afb8a5253956851c19cc0"
   topLevelUsesLimit := true
   createLocksRechecksBuildsPublishes := true
@@ -475,7 +475,10 @@ def facts : Facts := {
 --   return 
 -- decoder / decodeFixedSizeTypes
 --   switch t
---   case tBOOL,tBYTE
+--   case tBOOL
+--   call (*bool)
+--   return 1
+--   case tBYTE
 --   call (*byte)
 --   return 1
 --   case tDOUBLE,tI64
@@ -839,13 +842,16 @@ def facts : Facts := {
 --   call strings.TrimSpace
 --   return ss
 -- resolver / doParseType
+--   if depth > maxTypeDepth => return
+--   return nil, EType(vt, "type is nested too deeply")
+--   call EType
 --   if ret = newType(); vt.Kind() == reflect.Ptr => return
 --   call newType
 --   call vt.Kind
 --   if !allowPtrs => return
 --   return nil, EType(vt, "nested pointer is not allowed")
 --   call EType
---   if ret.V, err = doParseType(vt.Elem(), def, i, false); err != nil => return
+--   if ret.V, err = doParseType(vt.Elem(), def, i, false, depth+1); err != nil => return
 --   call doParseType
 --   call vt.Elem
 --   return nil, err
@@ -900,14 +906,14 @@ def facts : Facts := {
 --   if def == "" => return
 --   return nil, ESetList(*i, def, et)
 --   call ESetList
---   return doParseSlice(vt, et, def, i, ret)
+--   return doParseSlice(vt, et, def, i, ret, depth)
 --   call doParseSlice
 --   if def != ""
 --   if tv, et := readToken(def, i, false); et != nil => return
 --   call readToken
 --   return nil, et
---   if !strings.Contains(keywordTab[tag], tv)
---   call strings.Contains
+--   if !isKeyword(tag, tv)
+--   call isKeyword
 --   if !isident0(tv[0]) => return
 --   call isident0
 --   return nil, mkMistyped(*i-len(tv), def, tv, tag, vt)
@@ -931,7 +937,7 @@ def facts : Facts := {
 --   return nil, ESyntax(*i-len(tk), def, "'<' expected")
 --   call ESyntax
 --   call len
---   if ret.K, err = doParseType(vt.Key(), def, i, true); err != nil => return
+--   if ret.K, err = doParseType(vt.Key(), def, i, true, depth+1); err != nil => return
 --   call doParseType
 --   call vt.Key
 --   return nil, err
@@ -947,7 +953,7 @@ def facts : Facts := {
 --   return nil, ESyntax(*i-len(tk), def, "':' expected")
 --   call ESyntax
 --   call len
---   if ret.V, err = doParseType(vt.Elem(), def, i, true); err != nil => return
+--   if ret.V, err = doParseType(vt.Elem(), def, i, true, depth+1); err != nil => return
 --   call doParseType
 --   call vt.Elem
 --   return nil, err
@@ -982,7 +988,7 @@ def facts : Facts := {
 --   return nil, ESyntax(*i-len(tok), def, "'<' expected")
 --   call ESyntax
 --   call len
---   if rt.V, err = doParseType(et, def, i, true); err != nil => return
+--   if rt.V, err = doParseType(et, def, i, true, depth+1); err != nil => return
 --   call doParseType
 --   return nil, err
 --   if tok, err = readToken(def, i, false); err != nil => return
